@@ -33,6 +33,10 @@ pub fn topologies(tier: Tier) -> Vec<Topo> {
         topo("dual-port-2", &[2, 1], &[&[(0, 0), (0, 1), (1, 0)]]),
         topo("dual-port-chain-3", &[2, 2, 1], &[&[(0, 0), (0, 1), (1, 0)], &[(1, 1), (2, 0)]]),
         topo("parallel-links-2", &[2, 2], &[&[(0, 0), (1, 0)], &[(0, 1), (1, 1)]]),
+        // a boundary clock with an upstream port and two ports on one downstream segment
+        // (downstream ports numbered above / below the upstream port)
+        topo("upstream+dual-port-3", &[1, 3, 1], &[&[(0, 0), (1, 0)], &[(1, 1), (1, 2), (2, 0)]]),
+        topo("dual-port+upstream-3", &[1, 3, 1], &[&[(0, 0), (1, 2)], &[(1, 0), (1, 1), (2, 0)]]),
     ];
     if tier == Tier::Thorough {
         v.push(topo("chain-4", &[1, 2, 2, 1], &[&[(0, 0), (1, 0)], &[(1, 1), (2, 0)], &[(2, 1), (3, 0)]]));
